@@ -11,6 +11,8 @@ package main
 //     NewRouter stores one fresh &routers.Route per (path, server) with Server: s.server, FindRoute returns a copy;
 //   - legacy: NewRouter's route literal has no Server field, FindRoute never assigns route.Server (F-C09-8), the server
 //     is taken from doc.Servers only (F-C09-9);
+//   - which representation of the URL path is matched: gorillamux the escaped one (UseEncodedPath), legacy url.Path without
+//     servers and url.String() (Servers.MatchURL) with servers;
 //   - the two route error reasons of routers/types.go.
 // Each fact is a (key, value) row; a fact whose code shape is not found becomes an `unrecognised` row.
 
@@ -295,8 +297,32 @@ func extractRouterFacts(repo string) (string, error) {
 		})
 		fact("legacy.findRoute.setsRouteServer", fmt.Sprint(setsServer))
 		fact("legacy.findRoute.serversFrom", serversFrom)
+		// which representation of the path is matched: url.Path without servers, what Servers.MatchURL returns with servers
+		var rem []string
+		ast.Inspect(fd.Body, func(n ast.Node) bool {
+			if as, ok := n.(*ast.AssignStmt); ok {
+				for _, l := range as.Lhs {
+					if src(l) == "remainingPath" {
+						rem = append(rem, src(as))
+					}
+				}
+			}
+			return true
+		})
+		fact("legacy.findRoute.remainingPath", strings.Join(rem, " | "))
 	} else {
 		miss("legacy.Router.FindRoute")
+	}
+
+	// ---- openapi3/server.go: Servers.MatchURL works on the escaped URL string
+	sv, err := parse("openapi3/server.go")
+	if err != nil {
+		return "", err
+	}
+	if fd := funcOf(sv, "Servers", "MatchURL"); fd != nil && len(fd.Body.List) > 0 {
+		fact("servers.matchURL.input", src(fd.Body.List[0]))
+	} else {
+		miss("openapi3.Servers.MatchURL")
 	}
 
 	// ---- routers/types.go
